@@ -27,13 +27,15 @@ SLICES = {
     'outline-plain': (BASE, X.tf_outline('function'), X.has_region, 2, X.regions_post(overrides=False, names=False)),
     'outline-fn': (('functions', 'select'), X.tf_outline('function'), X.has_region, 1, X.regions_post()),
     'outline-consts': (('consts', 'localconst', 'select'), X.tf_outline('function'), X.has_region, 1, X.regions_post()),
+    'outline-ovarray': (BASE, X.tf_outline('function'), X.has_region, 1, X.regions_post(ovarray=True)),
     'outline-print': (BASE, X.tf_outline('function'), X.has_region, 1, X.regions_post(allow_print=True)),
     'outline-assoc': (('assoc', 'select'), X.tf_outline('function'), X.has_region, 1, X.regions_post(allow_assoc=True)),
-    'extract': (BASE + ('internal', 'modsubs'), X.tf_extract('function'), ap_internal, 4),
-    'extract-xform': (BASE + ('internal',), X.tf_extract('xform'), ap_internal, 2),
-    'extract-fn': (('internal', 'internalfn', 'select'), X.tf_extract('function'), ap_internal, 2),
-    'extract-consts': (('internal', 'consts', 'localconst', 'constinternal'), X.tf_extract('function'), ap_internal, 1),
-    'extract-outline': (('internal', 'select', 'while'), X.tf_outline('both'), ap_both, 2, X.regions_post()),
+    'extract': (BASE + ('internal', 'modsubs', 'nohostarrays'), X.tf_extract('function'), ap_internal, 4),
+    'extract-hostarrays': (('internal', 'select'), X.tf_extract('function'), ap_internal, 1),
+    'extract-xform': (BASE + ('internal', 'nohostarrays'), X.tf_extract('xform'), ap_internal, 2),
+    'extract-fn': (('internal', 'internalfn', 'select', 'nohostarrays'), X.tf_extract('function'), ap_internal, 2),
+    'extract-consts': (('internal', 'consts', 'localconst', 'constinternal', 'nohostarrays'), X.tf_extract('function'), ap_internal, 1),
+    'extract-outline': (('internal', 'select', 'while', 'nohostarrays'), X.tf_outline('both'), ap_both, 2, X.regions_post()),
 }
 
 
